@@ -151,6 +151,13 @@ def gen_jobs(ctx):
     cap = 24 if quick else 64
     jobs = []
     maxlen = 5 if quick else 7
+    from lib import glrcases
+    for e in glrcases.corpus():
+        if len(e["alphabet"]) == 1:
+            ins = [e["alphabet"] * k for k in range(e["maxlen"] + 1)]
+        else:
+            ins = list(gramgen.all_strings(list(e["alphabet"]), min(e["maxlen"], 6)))
+        jobs.append((e["name"], e["text"], ins, cap))
     for name, text in gramgen.CURATED:
         alpha = gramgen.alphabet_of(text)
         ml = maxlen if len(alpha) <= 2 else maxlen - 1
@@ -178,6 +185,14 @@ def gen_jobs(ctx):
             if s is not None and s not in inputs:
                 inputs.append(s)
         jobs.append(("rand%d" % i, text, inputs, cap))
+    for i in range(nrand // 3):
+        r = gramgen.lexlen_grammar(rng)
+        if r is not None:
+            jobs.append(("lexlen%d" % i, r[1], list(gramgen.all_strings(["a", "b"], 5 if quick else 6))
+                         + ["a" * k for k in range(6, 10)], cap))
+        r = gramgen.nullable2_grammar(rng)
+        if r is not None:
+            jobs.append(("null2_%d" % i, r[1], list(gramgen.all_strings(["a", "b"], 4 if quick else 5)), cap))
     return jobs
 
 
